@@ -343,6 +343,58 @@ def part_seeds(run):
     return len(jobs) + len(pool_jobs)
 
 
+def order_case(job):
+    import dataclasses
+    case, salt = job
+    c = dataclasses.replace(case, cfg=dataclasses.replace(case.cfg, order_salt=salt))
+    r = E.execute(c)
+    return dict(ok=r['ok'], exc=r['exc'], seqs=sorted(r['peptides'] or {}),
+                entries=sorted((s, tuple(sorted(x.rsplit('|', 1)[0] for x in h))) for s, h in (r['peptides'] or {}).items()))
+
+
+def part_order(run):
+    """Set-iteration order as an explicit axis: graph nodes/edges hash by identity, so their order in sets follows
+    allocation addresses; lib/ordctl.py replaces the identity hash by a salted creation counter.  The peptide set
+    must be the same for every salt (ascending, descending and two scrambled orders)."""
+    q = run.tier == 'quick'
+    cases = E.d2_cases('R3', 'ENST03', CC.CFG_NONE, 24, 32 if q else 48, 9, reduced=True)
+    cases += E.d2_cases('R1', 'ENST01', CC.CFG_EXC, 84, 90 if q else 96, 9, reduced=True)
+    cases += CC.circ_cases('R8', 'ENST08', CC.CFG_NONE, with_snv=True)[::9 if q else 2]
+    cases += CC.fusion_cases('R7', 'ENST0A1', 'ENST0B1', 9 if q else 4, CC.CFG_NONE)
+    recs = CC.as_records('R8', 'ENST08')
+    cases += [E.Case('R8', as_recs=(a,), small=(v,), cfg=CC.CFG_NONE) for a in recs
+              for p in range(0, panel.get('R8').tx_len('ENST08'), 9 if q else 3)
+              for v in E.small_alphabet(panel.get('R8'), 'ENST08', p, reduced=True)[:2]]
+    salts = (0, 1, 2) if q else (0, 1, 2, 7)
+    if q:
+        cases = [c for c in cases if c.fusions or c.circs or c.as_recs] + [c for c in cases if not (c.fusions or c.circs or c.as_recs)][run.seed % 3::3]
+    jobs = [(c, s) for c in cases for s in salts]
+    res = vlib.pmap(order_case, jobs, jobs=run.jobs)
+    errs = vlib.harness_errors(res)
+    if errs:
+        raise RuntimeError(errs[0])
+    nt = lab = 0
+    for i, c in enumerate(cases):
+        rr = res[len(salts) * i:len(salts) * (i + 1)]
+        base = rr[0]
+        if base['seqs']:
+            nt += 1
+        for s, r in zip(salts[1:], rr[1:]):
+            if (r['ok'], r['seqs']) != (base['ok'], base['seqs']):
+                a, b = set(base['seqs']), set(r['seqs'])
+                run.violation(f'order/{c.key()}/salt={s}',
+                              f'peptide set depends on set-iteration order: salt 0 ok={base["ok"]} vs salt {s} ok={r["ok"]} {r["exc"] or ""}; '
+                              f'only salt 0: {sorted(a - b)[:4]} only salt {s}: {sorted(b - a)[:4]}',
+                              dict(kind='order', case=CC.case_to_replay(c), salt=s))
+                break
+        else:
+            if any(r['entries'] != base['entries'] for r in rr[1:]):
+                lab += 1
+    run.block('set-iteration-order', len(jobs), nt, True, salts=list(salts), cases=len(cases),
+              cases_with_same_sequences_but_different_header_entries=lab)
+    return len(jobs)
+
+
 def replay(path):
     import json
     r = json.load(open(path))
@@ -356,6 +408,10 @@ def replay(path):
         a = layout_case((r['layout'], r['with_idx'], False))
         b = layout_case(([[0, 1, 2, 3, 4]], False, False))
         print('this:', a['pairs'] if a['ok'] else a['exc'], '\nbase:', b['pairs'])
+    elif r['kind'] == 'order':
+        c = CC.case_from_replay(r['case'])
+        for salt in (0, r['salt']):
+            print('salt', salt, order_case((c, salt))['seqs'])
     else:
         print('re-run the check with --only to reproduce')
 
@@ -382,6 +438,8 @@ def main():
         traces += part_refform(run)
     if run.want('seeds'):
         traces += part_seeds(run)
+    if run.want('order'):
+        traces += part_order(run)
     run.finish(states=max(states, 1), transitions=max(transitions, 1), traces=traces)
 
 
